@@ -4,6 +4,7 @@
 -/
 import Qvnt.Lemmas.GenBits
 import Qvnt.Lemmas.GenQuant
+import Qvnt.Lemmas.GenRegs
 
 set_option linter.unusedSectionVars false
 
@@ -49,4 +50,10 @@ theorem vreg_index_by_eq (v : VReg) (f : Nat → Bool) : vreg_index_by (vregOfMo
 
 theorem quant_get_vreg_eq (r : QReg R) : quant_get_vreg (ofModel r) = vregOfModel r.getVReg := by
   simp [quant_get_vreg, QReg.getVReg, ofModel, vreg_new_with_mask_eq]
+theorem quant_get_vreg_by_eq (r : QReg R) (mask : Nat) :
+    quant_get_vreg_by (ofModel r) mask = (r.getVRegBy mask).map vregOfModel := by
+  unfold quant_get_vreg_by QReg.getVRegBy
+  simp only [ofModel, notW_eq, vreg_new_with_mask_eq]
+  by_cases h : mask &&& CReg.notW r.qMask = 0 <;> simp [h]
+
 end Qvnt.Gen2
